@@ -162,11 +162,28 @@ def tapes(draw, tier):
 def world_plans(draw, tier):
     nspecs = draw(st.sampled_from([1, 1, 2, 2, 2, 3]))
     specs = [draw(plans.specs('s{}'.format(i), max_classes=4)) for i in range(nspecs)]
-    if nspecs >= 2 and draw(st.integers(0, 2)) == 0:
+    if draw(st.integers(0, 3 if nspecs >= 2 else 7)) == 0:
         # two applications on one library base class, each with its own same-named subclass
         v = shared_base_variant(specs[0], 's1')
+        if v is None:
+            # give the first application a simple derived class to begin with
+            bases = [c for c in specs[0]['classes'] if c['kind'] == 'regular' and not c.get('base')
+                     and c.get('registered', True) and not c.get('extra')
+                     and not any(plans._mentions_class(q['t']) for q in c.get('params', []))]
+            free = [n for n in plans.CLASS_NAMES if n not in [c['name'] for c in specs[0]['classes']]]
+            if bases and free:
+                used = {q['n'] for q in bases[0].get('params', [])}
+                pn = [n for n in ('radius', 'depth', 'label') if n not in used][0]
+                specs[0]['classes'].append({
+                    'name': free[0], 'kind': 'regular', 'registered': True, 'base': bases[0]['name'],
+                    'params': [{'n': pn, 't': draw(st.sampled_from(['int', 'str', 'float'])), 'd': None}],
+                    'extra': False})
+                v = shared_base_variant(specs[0], 's1')
         if v is not None:
-            specs[1] = v
+            if nspecs >= 2:
+                specs[1] = v
+            else:
+                specs.append(v)
     nfn = draw(st.integers(1, 4))
     setup = [draw(mk_ops(specs, slot)) for slot in range(nfn)]
     if draw(st.integers(0, 2)) == 0:
